@@ -266,7 +266,7 @@ def main(pid, tier):
               f"{twins_ok} twins sat, {len(known_hits)} known-finding hits, {len(violations)} violations, "
               f"{len(harness_errors)} harness errors; solver {solver_time}s, wall {ev['wall_s']}s")
         for ob, res in inconclusive:
-            print(f"  inconclusive: {ob['name']} [{res['status']} {res['time']}s]")
+            print(f"  inconclusive: {ob['name']} [{res['status']} {res['time']}s] {res.get('reason', '')[:160]}")
         slow = sorted(results, key=lambda x: -x[1]["time"])[:5]
         print("  slowest: " + ", ".join(f"{ob['name']} {res['time']}s" for ob, res in slow if res["time"] > 1))
         print("  builders: " + ", ".join(f"{g} {i.get('build_s')}s" for g, i in sorted(build_info.items(), key=lambda x: -(x[1].get("build_s") or 0))[:5]))
